@@ -814,4 +814,126 @@ def deliverRounds (cfg : Conf) (src : Nat) (c : SendCfg) (log : List Entry) :
         | .error e => .error e
         | .ok (s2, n2, m2, bs) => .ok (s2, n2, m2, r.batches ++ bs)
 
+/-! ## the whole `append_entries` handler: envelope around `followerAppend` / the snapshot install
+
+`if message['type'] == 'append_entries' and message['term'] >= self.__raftCurrentTerm:` … to the
+`setRaftCommitIndex` at the end.  `votedFor` / `votesCount` are not fields of `Node`; they travel in `Extra`
+(names and argument order as in the first transcription in `PSO/Proofs/BridgeFollower.lean`). -/
+
+/-- fields of the real node that `Node` does not carry -/
+structure Extra where
+  votedFor : Option Nat
+  votes : Nat
+deriving Repr
+
+/-- node state after the head of the handler: `__onLeaderChanged()` when the leader changes (`waitReply` cleared),
+`__raftLeader = node`, a higher term adopted, `__setState(FOLLOWER)` -/
+def envState (s : Node) (src term : Nat) : Node :=
+  { s with waitReply := if s.leader = some src then s.waitReply else []
+           leader := some src
+           term := if s.term < term then term else s.term
+           role := .follower }
+
+/-- `votedFor = None` when a higher term is adopted -/
+def envExtra (x : Extra) (s : Node) (term : Nat) : Extra := if s.term < term then { x with votedFor := none } else x
+
+/-- the LEADER_CHANGED callbacks of `__onLeaderChanged()` -/
+def envOuts (s : Node) (src : Nat) : List Out := if s.leader = some src then [] else (onLeaderChanged s).2
+
+/-- `if lastNewIdx is not None and leaderCommitIndex > commit: commit = max(commit, min(leaderCommitIndex, lastNewIdx))`;
+`lastNewIdx` is set exactly when the success reply `next_node_idx = lastNewIdx + 1` was sent -/
+def envCommit (s2 : Node) (leaderCommit : Nat) (outs : List Out) : Nat :=
+  match ackNext outs with
+  | some nx => if s2.commit < leaderCommit then max s2.commit (min leaderCommit (nx - 1)) else s2.commit
+  | none => s2.commit
+
+/-- the handler for a message that carries `prevLogIdx` (regular batch, heartbeat, chunk): term test, head
+(`envState`, `envExtra`, `envOuts`), regular branch (`followerAppend`), commit index (`envCommit`) -/
+def appendEntriesEnv (cfg : Conf) (x : Extra) (s : Node) (src term leaderCommit : Nat) (m : AppendMsg) :
+    Extra × Node × Except Err (List Out) :=
+  if term < s.term then (x, s, .ok [])
+  else
+    match followerAppend cfg (envState s src term) src m with
+    | (s2, .error e) => (envExtra x s term, s2, .error e)
+    | (s2, .ok outs) =>
+      (envExtra x s term, { s2 with commit := envCommit s2 leaderCommit outs }, .ok (envOuts s src ++ outs))
+
+/-- what the `serialized` field of a snapshot message amounts to -/
+inductive SnapMsg
+  | none                                                    -- `serialized: None`
+  | notLast                                                 -- `setTransmissionData` returns False (not the last chunk)
+  | complete (prevE lastE : Entry) (cluster : List Nat)     -- last chunk: the dump (two entries, cluster) is loaded
+  | broken                                                  -- last chunk, but `deserialize` raises (swallowed by `__loadDumpFile`)
+
+/-- stable insertion by index -/
+def insertByIdx (p : Nat × Nat × Nat) : List (Nat × Nat × Nat) → List (Nat × Nat × Nat)
+  | [] => [p]
+  | q :: r => if p.1 < q.1 then p :: q :: r else q :: insertByIdx p r
+
+/-- callbacks of `commandsWaitingCommit` at indices the installed snapshot covers are answered LEADER_CHANGED
+(repair D61), in index order -/
+def coveredCallbacks (s : Node) (upTo : Nat) : Node × List Out :=
+  let hit := s.waitCommit.filter (fun p => p.1 ≤ upTo)
+  let sorted := hit.foldl (fun acc p => insertByIdx p acc) []
+  ({ s with waitCommit := s.waitCommit.filter (fun p => !(p.1 ≤ upTo)) },
+   sorted.map fun p => Out.callback p.2.2 .leaderChanged)
+
+/-- `__loadDumpFile(clearJournal=True)`: returns the state, the outputs and the returned index (`none` = an
+exception was swallowed).  Repair D4: a snapshot the node has applied, or whose last entry it holds, is not
+installed. -/
+def installSnapshot (cfg : Conf) (s : Node) (prevE lastE : Entry) (cluster : List Nat) : Node × List Out × Option Nat :=
+  match getEntries s.log (some lastE.idx) (some 1) none with
+  | none => (s, [], none)                                    -- IndexError on an empty journal, swallowed
+  | some own =>
+    let holds := match own with | e :: _ => e.term == lastE.term | [] => false
+    if lastE.idx ≤ s.lastApplied || holds then (s, [], some lastE.idx)
+    else
+      let s1 := { s with log := [prevE, lastE], lastApplied := lastE.idx }
+      let (s2, o2) := coveredCallbacks s1 lastE.idx
+      if cfg.dynMember then
+        match updateClusterConfiguration s2 (cluster.filter (fun n => s.self ≠ some n)) with
+        | .error _ => (s2, o2, none)
+        | .ok (s3, o3) => (s3, o2 ++ o3, some lastE.idx)
+      else (s2, o2, some lastE.idx)
+
+/-- any `append_entries` message -/
+inductive EnvMsg
+  | regular (m : AppendMsg)
+  | snapshot (d : SnapMsg)
+
+/-- side observations of the handler that are not node state: the election deadline was re-armed, the journal was
+told to store (term, vote), the journal was told the commit index (`setRaftCommitIndex` at the end: not reached
+after a `return` or an exception) -/
+structure EnvObs where
+  deadlineReset : Bool := false
+  storedTermVote : Option (Nat × Option Nat) := none
+  storedCommit : Option Nat := none
+deriving Repr
+
+/-- **The `append_entries` handler of `__onMessageReceived`, every kind of message.** -/
+def appendMsgEnv (cfg : Conf) (x : Extra) (s : Node) (src term leaderCommit : Nat) (k : EnvMsg) :
+    Extra × Node × Except Err (List Out) × EnvObs :=
+  if term < s.term then (x, s, .ok [], {})
+  else
+    let tv : Option (Nat × Option Nat) := if s.term < term then some (term, none) else none
+    match k with
+    | .regular m =>
+      let (x', s', r) := appendEntriesEnv cfg x s src term leaderCommit m
+      -- the end of the handler is reached exactly when a success reply was sent
+      let reached := match r with | .ok outs => (ackNext outs).isSome | .error _ => false
+      (x', s', r, { deadlineReset := true, storedTermVote := tv, storedCommit := if reached then some s'.commit else none })
+    | .snapshot d =>
+      let s0 := envState s src term
+      let (s1, o1, idx) : Node × List Out × Option Nat := match d with
+        | .complete prevE lastE cluster => installSnapshot cfg s0 prevE lastE cluster
+        | _ => (s0, [], none)
+      let o2 : List Out := match idx with
+        | some i => [.send src (.nextNodeIdx (i + 1) false true s1.term)]
+        | none => []
+      let c := match idx with
+        | some i => if s1.commit < leaderCommit then max s1.commit (min leaderCommit i) else s1.commit
+        | none => s1.commit
+      (envExtra x s term, { s1 with commit := c }, .ok (envOuts s src ++ o1 ++ o2),
+       { deadlineReset := true, storedTermVote := tv, storedCommit := some c })
+
 end PSO.NodeSend
